@@ -1411,6 +1411,9 @@ func (e *Env) typeExpr(ex Expr) (types.Type, error) {
 				return tn.Type(), nil
 			}
 		}
+		if tn, ok := types.Universe.Lookup(t.Name).(*types.TypeName); ok {
+			return tn.Type(), nil
+		}
 	}
 	return nil, fmt.Errorf("not a type: %s", exprString(ex))
 }
